@@ -536,6 +536,20 @@ UNSUPPORTED_REFACTORS = {
     "r3fix-c17": "the momentum side is decided once and passed to side-parametric placement sites: the sign rule is per constant-side site",
     "r3fix-c19": "the flattened observation is built by an iterator chain (zip/skip/flat_map/chain/collect): the array model interprets loops "
                  "and from_fn",
+    # -- feature-addition / maintenance corpus (feat-*)
+    "feat-book-3": "tick test of modify_order through a Result-returning helper used as `check_price(p).is_err()` (same class as rf2-book2-1): in "
+                   "the whole-operation view the helper's Ok / Err values are joined and the test of the join is not correlated with the "
+                   "comparison that built them",
+    "feat-book-4": "place_order / modify_order test `self.orders[id].order.status` on the table slot and copy the slot afterwards: the typestate does "
+                   "not transfer the refinement from the slot to the working copy; remove_order through the BTreeMap entry API "
+                   "(`Entry::Occupied` + `level.remove()`) is not one of the lock-step idioms",
+    "feat-agents-3": "random agents rewritten as an in-place slot loop with the order sampler shared through a helper returning a tuple: the "
+                     "per-slot model does not read the draws through the tuple-returning helper",
+    "feat-python-2": "get_market_data builds the dictionary with `with_capacity` + `insert` in a shared helper: the dictionary model reads "
+                     "`HashMap::from([..])` + `extend(from_fn(..))`",
+    "feat-python-3": "the Python classes keep their own order count and refuse unknown ids before forwarding: forwarding becomes conditional on "
+                     "wrapper-side bookkeeping which no rule proves equal to the core's order table (it also changes behaviour for invalid ids)",
+    "feat-python-4": "optional n_levels argument: the array length becomes a runtime value, the array model needs a constant level count",
 }
 for _f in sorted(_glob.glob(_os.path.join(_os.path.dirname(_os.path.abspath(__file__)), "refactors", "*.diff"))):
     _n = _os.path.basename(_f)[:-5]
@@ -564,3 +578,29 @@ mutant("c18-prices-pair-transposed", "C18", (PYSS, "(prices.0.to_pyarray(py), pr
 mutant("c18-ctor-step-size", "C18", (PYSS, "let env = BaseEnv::new(start_time, tick_size, step_size, trading);", "let env = BaseEnv::new(start_time, tick_size, step_size + 1, trading);"), expect="forward")
 mutant("c18-numpy-enable-dropped", "C18", (PYSSNP, "    pub fn enable_trading(&mut self) {\n        self.env.enable_trading();", "    pub fn enable_trading(&mut self) {"), expect="sibling")
 mutant("c12-tick-assert-removed", "C12", (OB, "        assert!(tick_size > 0);\n", ""), expect="tick_size == 0")
+
+# ------------------------------------------------------------------------------- idioms accepted since the feature corpus (DESIGN 6.6):
+# each accepted idiom gets the slips that must still be reported when written in that idiom
+_TAKE = "        let mut transactions = mem::take(&mut self.transactions);\n        transactions.shuffle(rng);\n"
+_LOOP = "        for (i, t) in transactions.into_iter().enumerate() {"
+refactor("inplace-drain-env", ["C05", "C08", "C10", "C11", "C14", "C15", "C19"], [
+    (ENV, _TAKE, "        self.transactions.shuffle(rng);\n"), (ENV, _LOOP, "        for (i, t) in self.transactions.drain(..).enumerate() {"),
+    (ENV, "use std::mem;\n", "")])
+mutant("inplace-drain-partial", ["C08", "C15"], [
+    (ENV, _TAKE, "        self.transactions.shuffle(rng);\n"), (ENV, _LOOP, "        for (i, t) in self.transactions.drain(1..).enumerate() {"),
+    (ENV, "use std::mem;\n", "")], expect=None)
+mutant("inplace-drain-shuffle-tail", "C15", [
+    (ENV, _TAKE, "        self.transactions[1..].shuffle(rng);\n"), (ENV, _LOOP, "        for (i, t) in self.transactions.drain(..).enumerate() {"),
+    (ENV, "use std::mem;\n", "")], expect="shuffle")
+mutant("inplace-drain-retain", ["C08", "C15"], [
+    (ENV, _TAKE, "        self.transactions.shuffle(rng);\n        self.transactions.truncate(64);\n"), (ENV, _LOOP, "        for (i, t) in self.transactions.drain(..).enumerate() {"),
+    (ENV, "use std::mem;\n", "")], expect=None)
+mutant("batch-dedup-before-shuffle", ["C08", "C15"], (ENV, _TAKE, "        let mut transactions = mem::take(&mut self.transactions);\n        transactions.dedup_by_key(|t| matches!(t, Event::Cancellation { .. }));\n        transactions.shuffle(rng);\n"), expect="batch")
+# a new public Market mutator that reaches the books directly is not covered by the forwarding rules
+mutant("c14-new-mutator-direct-write", "C14", (MKT, "    /// Reset cumulative trade vol to 0 for all assets\n    pub fn reset_trade_vols(&mut self) {",
+       "    /// Rewind the first book\n    pub fn rewind_first(&mut self) {\n        self.order_books[0].set_time(0);\n    }\n\n    /// Reset cumulative trade vol to 0 for all assets\n    pub fn reset_trade_vols(&mut self) {"), expect="write the books directly")
+refactor("c14-new-mutator-through-api", ["C14", "C08", "C10", "C13"], (MKT, "    /// Reset cumulative trade vol to 0 for all assets\n    pub fn reset_trade_vols(&mut self) {",
+         "    /// Halt trading and zero the counters\n    pub fn halt(&mut self) {\n        self.disable_trading();\n        self.reset_trade_vols();\n    }\n\n    /// Reset cumulative trade vol to 0 for all assets\n    pub fn reset_trade_vols(&mut self) {"))
+# a debug assertion is not an abort site, a plain assertion on the same condition is
+mutant("c16-assert-in-round", "C16", (COMMON, "pub fn round_price_up(p: f64, tick_size: f64) -> Price {\n", "pub fn round_price_up(p: f64, tick_size: f64) -> Price {\n    assert!(p < 1.0e9);\n"), expect="no-abort")
+refactor("c16-debug-assert-in-round", ["C16"], (COMMON, "pub fn round_price_up(p: f64, tick_size: f64) -> Price {\n", "pub fn round_price_up(p: f64, tick_size: f64) -> Price {\n    debug_assert!(tick_size > 0.0);\n"))
